@@ -75,7 +75,7 @@ UNICODE_BLOCKS_VER_2_0_0 = {
     'Combining Half Marks': '\uFE20-\uFE2F',
     'CJK Compatibility Forms': '\uFE30-\uFE4F',
     'Small Form Variants': '\uFE50-\uFE6F',
-    'Arabic Presentation Forms-B': '\uFE70-\uFEFF',
+    'Arabic Presentation Forms-B': '\uFE70-\uFEFE',
     'Halfwidth and Fullwidth Forms': '\uFF00-\uFFEF',
     'Specials': '\uFEFF-\uFEFF\uFFF0-\uFFFF'
 }
